@@ -6,6 +6,7 @@ import (
 	"net/url"
 	"os"
 	"path/filepath"
+	"reflect"
 	"sort"
 	"strconv"
 	"strings"
@@ -131,6 +132,9 @@ func (o GOp) String() string {
 		}
 		return fmt.Sprintf("Compose(%s/%q <- [%s], dest=%+v)%s", o.Bucket, o.Name, strings.Join(ss, ","), o.Meta, c)
 	case "Copy":
+		if !reflect.DeepEqual(o.Meta, gcs.ObjMeta{}) {
+			return fmt.Sprintf("Copy(%s/%q -> %s/%q, resource=%+v)", o.Bucket, o.Name, o.DstBucket, o.DstName, o.Meta)
+		}
 		return fmt.Sprintf("Copy(%s/%q -> %s/%q)", o.Bucket, o.Name, o.DstBucket, o.DstName)
 	case "Get":
 		return fmt.Sprintf("Get[%s](%s/%q)", o.Form, o.Bucket, o.Name)
@@ -595,7 +599,12 @@ func (w *gcsWorld) step(o *GOp) (string, string) {
 		return "", ""
 	case "Copy":
 		exp := mdl.ExpectCopy(o.Bucket, o.Name, o.DstBucket, o.DstName)
-		r := w.do(gcs.ReqCopy(o.Bucket, o.Name, o.DstBucket, o.DstName))
+		req := gcs.ReqCopy(o.Bucket, o.Name, o.DstBucket, o.DstName)
+		withBody := !reflect.DeepEqual(o.Meta, gcs.ObjMeta{})
+		if withBody {
+			req = gcs.ReqCopyWith(o.Bucket, o.Name, o.DstBucket, o.DstName, o.Meta)
+		}
+		r := w.do(req)
 		if r.Panic != "" {
 			return fail("panic", "panic: %s", r.Panic)
 		}
@@ -633,7 +642,47 @@ func (w *gcsWorld) step(o *GOp) (string, string) {
 		}
 		srcComposite := mdl.Get(o.Bucket, o.Name).Composite
 		if d := gcs.DiffView(*got, *exp.View, !srcComposite); d != "" {
-			return fail("resp", "rewrite resource differs: %s", d)
+			// a rewrite whose body names fields for the destination: the statements leave open whether they are honoured. Accepted:
+			// the plain clone, or the clone with the named fields replaced (metadata map replaced or merged) - in every case ONE
+			// new version (metageneration 1) with the source's content
+			ok := false
+			if withBody {
+				for _, merge := range []bool{false, true} {
+					v := *exp.View
+					v.Metadata = copyStrMap(exp.View.Metadata)
+					if o.Meta.ContentType != "" {
+						v.ContentType = o.Meta.ContentType
+					}
+					if o.Meta.CacheControl != "" {
+						v.CacheControl = o.Meta.CacheControl
+					}
+					if o.Meta.ContentDisposition != "" {
+						v.ContentDisposition = o.Meta.ContentDisposition
+					}
+					if o.Meta.ContentLanguage != "" {
+						v.ContentLanguage = o.Meta.ContentLanguage
+					}
+					if o.Meta.ContentEncoding != "" {
+						v.ContentEncoding = o.Meta.ContentEncoding
+					}
+					if o.Meta.Metadata != nil {
+						if !merge || v.Metadata == nil {
+							v.Metadata = map[string]string{}
+						}
+						for k, x := range o.Meta.Metadata {
+							v.Metadata[k] = x
+						}
+					}
+					if gcs.DiffView(*got, v, !srcComposite) == "" {
+						ok = true
+						*exp.View = v
+						break
+					}
+				}
+			}
+			if !ok {
+				return fail("resp", "rewrite resource differs: %s", d)
+			}
 		}
 		if bad := mdl.CommitWrite(o.DstBucket, o.DstName, exp.Body, *exp.View, srcComposite, got.Generation); bad != "" {
 			return fail("generation", "%s", bad)
@@ -1172,3 +1221,14 @@ func (w *gcsWorld) CompareState() string {
 // Hash: canonical (model state with generations abstracted to per-name rank is implied by the
 // model's StateString; the implementation's observable state equals it after CompareState).
 func (w *gcsWorld) Hash() uint64 { return fw.Hash(w.model.StateString()) }
+
+func copyStrMap(m map[string]string) map[string]string {
+	if m == nil {
+		return nil
+	}
+	out := make(map[string]string, len(m))
+	for k, v := range m {
+		out[k] = v
+	}
+	return out
+}
